@@ -119,7 +119,9 @@ pub fn format_comments(comments: &ChildTrivia, loc: CommentLocation, out: &mut P
 					p!(out, sp);
 				}
 				// A comment without text is a comment still: `/* */`
-				if lines.is_empty() || lines.len() == 1 && !doc {
+				// A doc comment gets its gutter unless it is written on one line: printed on several
+				// behind an item, it would belong to the next item when it is read again
+				if lines.len() <= 1 && !(doc && text.contains('\n')) {
 					p!(out, str(if doc { "/**" } else { "/*" }));
 					if let Some(line) = lines.first() {
 						p!(out, str(" ") string(line.trim().to_string()));
